@@ -15,6 +15,9 @@ func reg(s *Spec) {
 				if a[1] == 2 && !thorough {
 					ctx = 1
 				}
+				if a[1] == 3 {
+					ctx = -1 // twelve heartbeat intervals: non-preemptive schedules
+				}
 				base = append(base, Inst{Pkg: "knx", Fn: "HarnessTunnelBB", Args: []int64{a[0], a[1], a[2]}, Ctx: ctx, MaxSched: 30000, NoNative: true,
 					Note: "black box: real NewTunnel on the redirected socket against a scripted gateway (0 traffic+Close, 1 rejected Send, 2 heartbeat failure and reconnect)"})
 			}
@@ -23,7 +26,7 @@ func reg(s *Spec) {
 		s.Quick = func(l *loaded) []Inst { return add(q(l), false) }
 		s.Thorough = func(l *loaded) []Inst { return add(t(l), true) }
 		s.Covers = append(s.Covers, "BB.end")
-		s.Bounds += "; black-box histories from the real constructor NewTunnel on (exported API only, channels symbolic): connect, Sends (one rejected by an error-status acknowledgement), inbound requests incl. a repetition, unanswered heartbeats followed by a reconnect, Close twice - the clauses of this property asserted on what the scripted gateway saw, context bound 2 (reconnect history: 1 in the quick tier)"
+		s.Bounds += "; black-box histories from the real constructor NewTunnel on (exported API only, channels symbolic): connect, Sends (one rejected by an error-status acknowledgement), inbound requests incl. a repetition, unanswered heartbeats followed by a reconnect, twelve answered heartbeat intervals in a row (non-preemptive schedules), Close twice - the clauses of this property asserted on what the scripted gateway saw, context bound 2 (reconnect history: 1 in the quick tier)"
 	}
 	specs[s.ID] = s
 }
@@ -33,7 +36,7 @@ var tunnelBB = map[string][][3]int64{
 	"C03": {{0, 0, 3}, {0, 1, 3}, {0, 2, 3}, {1, 0, 3}},
 	"C04": {{0, 0, 4}, {0, 2, 4}, {1, 0, 4}},
 	"C05": {{0, 1, 5}},
-	"C09": {{0, 2, 9}},
+	"C09": {{0, 2, 9}, {0, 3, 9}},
 	"C10": {{0, 0, 10}, {1, 0, 10}},
 }
 
@@ -477,11 +480,19 @@ func init() {
 				}
 				out = append(out, Inst{Pkg: "dpt", Fn: "HarnessC19Concurrent", Args: []int64{n[0], n[1]}, Race: true, NoNative: true, Note: "two goroutines produce and decode concurrently; happens-before race check on datapoint objects"})
 			}
+			seenMain := map[int64]bool{}
+			for _, n := range dptNames(l) {
+				if seenMain[n[0]] {
+					continue
+				}
+				seenMain[n[0]] = true
+				out = append(out, Inst{Pkg: "dpt", Fn: "HarnessC19Many", Args: []int64{n[0], n[1], 70}, Unwind: 8000, Note: "70 instances of one name in a row (one name per main number)"})
+			}
 			return out
 		},
 		Extra:   c19Completeness,
-		Covers:  []string{"C19.entry.end", "C19.names.end", "C19.known", "C19.unknown", "C19.conc.end", "C19.conc.both_decoded"},
-		Bounds:  "the registry initialiser of the current source is executed; every listed name: producible, type name = *dpt.DPT_<digits>, instances distinct, a decode of a fully symbolic payload into one instance leaves other and later instances at the zero value; every string of length 0..8 (fully symbolic) is produced exactly when it is listed; completeness: every exported DPT_* type implementing Datapoint (enumerated with go/types) is the dynamic type of an entry",
+		Covers:  []string{"C19.entry.end", "C19.names.end", "C19.known", "C19.unknown", "C19.conc.end", "C19.conc.both_decoded", "C19.many.end"},
+		Bounds:  "the registry initialiser of the current source is executed; every listed name: producible, type name = *dpt.DPT_<digits>, instances distinct, a decode of a fully symbolic payload into one instance leaves other and later instances at the zero value; 70 instances of one name in a row (one name per main number) pairwise distinct, each a zero value when handed out; every string of length 0..8 (fully symbolic) is produced exactly when it is listed; completeness: every exported DPT_* type implementing Datapoint (enumerated with go/types) is the dynamic type of an entry",
 		Outside: "names longer than 8 bytes (the longest key has 7); more than two concurrent goroutines (two goroutines producing and decoding at the same time are explored for every type - two representatives of the 9.xxx and 14.xxx look-alikes - under the vector-clock race check on datapoint objects; more goroutines add no new sharing pattern: instances are distinct objects and decode writes only its receiver)",
 		Assume:  []string{"reflect.TypeOf(x).Elem() / reflect.New(t).Interface() are modelled as: fresh zero object of the pointee type", "three-digit sub-number is read as at least three digits (14.1200 is a genuine KNX identifier)"},
 	})
@@ -514,6 +525,7 @@ func init() {
 				}
 			}
 		}
+		out = append(out, Inst{Pkg: "knx", Fn: "HarnessC17", Args: []int64{2, 20, 0}, Ctx: -1, NoNative: true, Note: "20 group events in a row: the payload of every event handed out stays what it was"})
 		for _, p := range [][2]int64{{15, 16}, {16, 15}, {0, 254}, {254, 1}} {
 			out = append(out, Inst{Pkg: "knx", Fn: "HarnessC12OutSeqWB", Args: []int64{p[0], p[1]}, Unwind: 2000, NoNative: true},
 				Inst{Pkg: "knx", Fn: "HarnessC12OutSeq", Args: []int64{1, p[0], p[1]}, Unwind: 2000, NoNative: true},
@@ -525,8 +537,8 @@ func init() {
 		ID:       "C12",
 		Quick:    func(l *loaded) []Inst { return c12(false) },
 		Thorough: func(l *loaded) []Inst { return c12(true) },
-		Covers:   []string{"C12.out.end", "C12.outwb.end", "C12.in.surfaced", "C12.in.filtered", "C12.inbb.surfaced", "C12.inbb.filtered", "C12.e2e.end", "C12.outseq.end", "C12.outseqwb.end"},
-		Bounds:   "outbound: all three commands, every source/destination/payload byte symbolic, payload lengths {0,1,2,15,16,254} (thorough 0..254), through GroupTunnel.Send (TCP-mode tunnel on the in-memory socket, and a UDP group tunnel built by the real NewGroupTunnel against a scripted gateway) and through GroupRouter.Send of a client built by the real NewGroupRouter (socket constructor redirected; the datagram bytes written are decoded again, so the first payload byte is compared in its low six bits and an empty payload as one zero byte); inbound: one message of every cEMI kind (L_Data req/con/ind with application or control unit, L_Raw x3, L_Busmon, unsupported) with all fields symbolic fed to the real serveGroupInbound goroutine, all interleavings of the three goroutines; the same filter through the sockets of clients built by NewGroupRouter / NewGroupTunnel for all 16 application codes x group/individual destination; end to end: bytes written by a group router client delivered to a group router client's socket, incl. closing of the group channel",
+		Covers:   []string{"C12.out.end", "C12.outwb.end", "C12.in.surfaced", "C12.in.filtered", "C12.inbb.surfaced", "C12.inbb.filtered", "C12.e2e.end", "C12.outseq.end", "C12.outseqwb.end", "C17.end"},
+		Bounds:   "outbound: all three commands, every source/destination/payload byte symbolic, payload lengths {0,1,2,15,16,254} (thorough 0..254), through GroupTunnel.Send (TCP-mode tunnel on the in-memory socket, and a UDP group tunnel built by the real NewGroupTunnel against a scripted gateway) and through GroupRouter.Send of a client built by the real NewGroupRouter (socket constructor redirected; the datagram bytes written are decoded again, so the first payload byte is compared in its low six bits and an empty payload as one zero byte); inbound: one message of every cEMI kind (L_Data req/con/ind with application or control unit, L_Raw x3, L_Busmon, unsupported) with all fields symbolic fed to the real serveGroupInbound goroutine, all interleavings of the three goroutines; the same filter through the sockets of clients built by NewGroupRouter / NewGroupTunnel for all 16 application codes x group/individual destination; end to end: bytes written by a group router client delivered to a group router client's socket, incl. closing of the group channel; 20 inbound events in a row with the application keeping every payload",
 		Outside:  "payloads above 254 bytes; more than one message per inbound run (ordering is C17)",
 	})
 
@@ -549,7 +561,9 @@ func init() {
 			}
 			out = append(out, Inst{Pkg: "knx", Fn: "HarnessC09Parked", Ctx: 2, MaxSched: 20000, Note: "no accepted telegram is lost across a reconnect"})
 			out = append(out, Inst{Pkg: "knx", Fn: "HarnessC17", Args: []int64{8, 3, 1}, Note: "no accepted telegram is lost when the overflow queue was used and drained before"},
-				Inst{Pkg: "knx", Fn: "HarnessC17", Args: []int64{8, 3, 3}})
+				Inst{Pkg: "knx", Fn: "HarnessC17", Args: []int64{8, 3, 3}},
+				Inst{Pkg: "knx", Fn: "HarnessC17", Args: []int64{0, 40, 1}, Ctx: -1, Note: "no accepted telegram is lost in a backlog of 40 (non-preemptive schedules)"},
+				Inst{Pkg: "knx", Fn: "HarnessC17", Args: []int64{0, 40, 3}, Ctx: -1})
 			return out
 		},
 		Thorough: func(l *loaded) []Inst {
@@ -588,6 +602,8 @@ func init() {
 				out = append(out, Inst{Pkg: "knx", Fn: "HarnessC03Exchange", Args: []int64{k, 0, -1, cfg}, Note: "UDP, K environment events"})
 			}
 		}
+		out = append(out, Inst{Pkg: "knx", Fn: "HarnessC03Exchange", Args: []int64{1, 0, -1, 2}, Note: "default configuration (500 ms / 10 s): up to 20 transmissions of one request"},
+			Inst{Pkg: "knx", Fn: "HarnessC03Exchange", Args: []int64{2, 0, -1, 2}})
 		out = append(out, Inst{Pkg: "knx", Fn: "HarnessC03Exchange", Args: []int64{2, 1, -1, 0}, Note: "TCP"},
 			Inst{Pkg: "knx", Fn: "HarnessC03Exchange", Args: []int64{2, 0, 0, 0}, Note: "first transmission fails"},
 			Inst{Pkg: "knx", Fn: "HarnessC03Exchange", Args: []int64{2, 0, 1, 0}, Note: "first retransmission fails"},
@@ -613,7 +629,7 @@ func init() {
 		Quick:    func(l *loaded) []Inst { return c03(false) },
 		Thorough: func(l *loaded) []Inst { return c03(true) },
 		Covers:   []string{"C03.matched", "C03.unmatched", "C03.tcp", "C03.sendfails", "C03.relay.delivered", "C03.connect.ok", "C03.connect.fails", "C03.two.end"},
-		Bounds:   "one real Send from an arbitrary state (sequence number and channel symbolic, so the 255->0 wrap is included) against an environment that K<=4 (thorough 5) times stays silent, lets a resend interval pass, offers an acknowledgement with symbolic sequence number and status, or closes the ack channel; two configurations (resend 2s/timeout 5s, 3s/7s) on the virtual clock; socket failing at the first or second transmission; TCP; handleTunnelRes offer window; requestConn outcomes; two concurrent senders against a gateway goroutine that acknowledges, loses or duplicates (context bound 2-3)",
+		Bounds:   "one real Send from an arbitrary state (sequence number and channel symbolic, so the 255->0 wrap is included) against an environment that K<=4 (thorough 5) times stays silent, lets a resend interval pass, offers an acknowledgement with symbolic sequence number and status, or closes the ack channel; two configurations (resend 2s/timeout 5s, 3s/7s) on the virtual clock, plus the default configuration (500 ms / 10 s: twenty transmissions) with K<=2; socket failing at the first or second transmission; TCP; handleTunnelRes offer window; requestConn outcomes; two concurrent senders against a gateway goroutine that acknowledges, loses or duplicates (context bound 2-3)",
 		Outside:  "3..8 concurrent senders and 600 Sends (one exchange from every counter value stands for any number of exchanges: requestTunnel keeps no other state between calls); real-time jitter: virtual time advances only when no goroutine can move",
 		Assume:   []string{"time.After/NewTicker/Stop are engine primitives on a virtual clock (timers never fire early, fire when nothing else can run)", "sync.Mutex: Unlock makes any waiter or newcomer eligible"},
 	})
@@ -647,6 +663,21 @@ func init() {
 		for _, k := range deep {
 			out = append(out, Inst{Pkg: "knx", Fn: "HarnessC17", Args: []int64{0, k, 3}, Note: "long burst, reader resumes in the middle"})
 		}
+		// long histories without preemption (context bound -1: the running goroutine continues while it
+		// can): backlogs of 24..40 telegrams - thresholds of queues, rings and compaction lie here
+		for _, mode := range []int64{1, 2, 3} {
+			out = append(out, Inst{Pkg: "knx", Fn: "HarnessC17", Args: []int64{0, 40, mode}, Ctx: -1, Note: "backlog of 40, non-preemptive schedules"})
+		}
+		out = append(out, Inst{Pkg: "knx", Fn: "HarnessC17", Args: []int64{2, 20, 0}, Ctx: -1, Note: "group layer, 20 events, payloads kept by the application"},
+			Inst{Pkg: "knx", Fn: "HarnessC17", Args: []int64{2, 20, 3}, Ctx: -1})
+		out = append(out, Inst{Pkg: "knx", Fn: "HarnessC17BB", Args: []int64{1, 40, 1}, Ctx: -1, Note: "router, backlog of 40, non-preemptive schedules"},
+			Inst{Pkg: "knx", Fn: "HarnessC17BB", Args: []int64{1, 24, 2}, Ctx: -1},
+			Inst{Pkg: "knx", Fn: "HarnessC17BB", Args: []int64{5, 24, 2}, Ctx: -1})
+		if maxK > 3 {
+			out = append(out, Inst{Pkg: "knx", Fn: "HarnessC17BB", Args: []int64{1, 40, 3}, Ctx: -1},
+				Inst{Pkg: "knx", Fn: "HarnessC17BB", Args: []int64{5, 40, 1}, Ctx: -1},
+				Inst{Pkg: "knx", Fn: "HarnessC17BB", Args: []int64{5, 40, 3}, Ctx: -1})
+		}
 		for _, cl := range []int64{1, 5} {
 			for _, mode := range []int64{1, 3} {
 				out = append(out, Inst{Pkg: "knx", Fn: "HarnessC17BB", Args: []int64{cl, 3, mode, 1}, Ctx: 2, Note: "after a warm-up telegram that was parked and taken (queue used once)"})
@@ -669,8 +700,8 @@ func init() {
 		Quick:    func(l *loaded) []Inst { return c17(3) },
 		Thorough: func(l *loaded) []Inst { return c17(5) },
 		Covers:   []string{"C17.end"},
-		Bounds:   "tunnel client (pushInbound directly, through handleTunnelReq in UDP and TCP mode, and a client built by the real NewTunnel fed through its socket in UDP and TCP mode), router client (built by the real NewRouter, fed through its socket) and the group layer (serveGroupInbound on a plain channel, and a group tunnel built by NewGroupTunnel); bursts of 2..3 (thorough ..5; constructor-built clients from 4 on with context bound 3, the NewGroupTunnel pipeline always with context bound 2) accepted telegrams for every client and consumer behaviour, plus bursts of 6 and 7 (thorough 8) with the reader resuming in the middle for the tunnel (pushInbound; NewTunnel-built, context bound 2) and the router (context bound 2); the tunnel also from the queue state a long history leaves behind (drained by re-slicing: empty, no spare capacity); consumer always waiting, absent for the whole burst, taking one telegram and then stalling, or resuming in the middle of the burst; every interleaving of the server side, the parked delivery goroutines and the consumer",
-		Outside:  "bursts longer than 8; the runtime's FIFO order among senders that are already blocked is not modelled (any blocked sender may be served), which only adds schedules",
+		Bounds:   "tunnel client (pushInbound directly, through handleTunnelReq in UDP and TCP mode, and a client built by the real NewTunnel fed through its socket in UDP and TCP mode), router client (built by the real NewRouter, fed through its socket) and the group layer (serveGroupInbound on a plain channel, and a group tunnel built by NewGroupTunnel); bursts of 2..3 (thorough ..5; constructor-built clients from 4 on with context bound 3, the NewGroupTunnel pipeline always with context bound 2) accepted telegrams for every client and consumer behaviour, plus bursts of 6 and 7 (thorough 8) with the reader resuming in the middle for the tunnel (pushInbound; NewTunnel-built, context bound 2) and the router (context bound 2); backlogs of 24 and 40 telegrams under non-preemptive schedules (tunnel white box and NewTunnel-built, router); the tunnel also from the queue state a long history leaves behind (drained by re-slicing: empty, no spare capacity); consumer always waiting, absent for the whole burst, taking one telegram and then stalling, or resuming in the middle of the burst; every interleaving of the server side, the parked delivery goroutines and the consumer",
+		Outside:  "bursts longer than 8 under full interleaving and longer than 40 without preemption; the runtime's FIFO order among senders that are already blocked is not modelled (any blocked sender may be served), which only adds schedules",
 		Assume:   []string{"the pinned tree reordered overflowed telegrams (per-telegram goroutines); repaired by the fix: commit recorded in known_findings.json, so all consumer behaviours are enforced now"},
 	})
 
@@ -697,6 +728,8 @@ func init() {
 		if thorough {
 			ctx = 4
 		}
+		out = append(out, Inst{Pkg: "knx", Fn: "HarnessC14Big", Args: []int64{32, 80}, Ctx: -1, RandChoice: true, Unwind: 4000, Note: "full default-sized history (32) of 80-byte telegrams, all reported lost"},
+			Inst{Pkg: "knx", Fn: "HarnessC14Big", Args: []int64{12, 254}, Ctx: -1, RandChoice: true, Unwind: 4000})
 		for sc := int64(0); sc <= 4; sc++ {
 			out = append(out, Inst{Pkg: "knx", Fn: "HarnessC14Run", Args: []int64{sc}, Ctx: ctx, RandChoice: true, MaxSched: 20000, Note: "real serve goroutine"})
 		}
@@ -707,8 +740,8 @@ func init() {
 		NoNative: true,
 		Quick:    func(l *loaded) []Inst { return c14(false) },
 		Thorough: func(l *loaded) []Inst { return c14(true) },
-		Covers:   []string{"C14.step.sent", "C14.step.sendfail", "C14.lost.resent", "C14.lost.partial", "C14.run.end"},
-		Bounds:   "one real Send / resendLost step from every retained history of length r <= R for R in 1..5 (thorough ..7) and R = 32 with r <= 3 (messages are distinct objects), lost count fully symbolic (0..65535), transmission failing at a nondeterministic position; bounded runs of the real serve goroutine with senders, lost and busy indications, slow/absent reader and Close, a lost indication before, after and inside a busy period, context bound 3 (thorough 4)",
+		Covers:   []string{"C14.step.sent", "C14.step.sendfail", "C14.lost.resent", "C14.lost.partial", "C14.run.end", "C14.big.end"},
+		Bounds:   "one real Send / resendLost step from every retained history of length r <= R for R in 1..5 (thorough ..7) and R = 32 with r <= 3 (messages are distinct objects), lost count fully symbolic (0..65535), transmission failing at a nondeterministic position; a full history of 32 telegrams of 80 bytes (and 12 of 254 bytes) reported lost and compared byte for byte; bounded runs of the real serve goroutine with senders, lost and busy indications, slow/absent reader and Close, a lost indication before, after and inside a busy period, context bound 3 (thorough 4)",
 		Outside:  "retain counts 4..31 and 33..64, 300-send histories (covered by induction over the one-step harness: Send and resendLost keep no state but the list), a lost indication arriving while an earlier resend is still in progress (excluded by the property)",
 		Assume:   []string{"container/list is executed from its real SSA", "in the bounded runs math/rand.Float64 is one of {0, 0.5, 0.9999999}"},
 	})
@@ -918,6 +951,7 @@ func init() {
 		for k := int64(0); k <= maxK; k++ {
 			out = append(out, Inst{Pkg: "knx", Fn: "HarnessC20Describe", Args: []int64{k}}, Inst{Pkg: "knx", Fn: "HarnessC20Discover", Args: []int64{k}})
 		}
+		out = append(out, Inst{Pkg: "knx", Fn: "HarnessC20DescribeMany", Args: []int64{40}, Ctx: -1, Note: "40 unrelated frames before the description response"})
 		out = append(out, Inst{Pkg: "knxnet", Fn: "HarnessC16Origin", Note: "only datagrams from the queried address and port surface"})
 		// "malformed frames first": the UDP receiver behind both calls keeps delivering after a bad datagram
 		for _, L := range []int64{-1, 6, 8, 10} {
@@ -930,8 +964,8 @@ func init() {
 		NoNative: true,
 		Quick:    func(l *loaded) []Inst { return c20(5) },
 		Thorough: func(l *loaded) []Inst { return c20(7) },
-		Covers:   []string{"C20.describe.answered", "C20.describe.timeout", "C20.discover.end"},
-		Bounds:   "real DescribeTunnel / DiscoverOnInterface (with the real TunnelSocket/RouterSocket methods) against an environment that offers 0..5 (thorough 7) frames, each a description response, a search response or another frame, each after a delay of 0, 2 or 4 s on the virtual clock (timeout 5 s), every interleaving of offer and timeout; one request written, carrying the host info of the socket's local address; socket closed exactly once",
+		Covers:   []string{"C20.describe.answered", "C20.describe.timeout", "C20.discover.end", "C20.many.end"},
+		Bounds:   "real DescribeTunnel / DiscoverOnInterface (with the real TunnelSocket/RouterSocket methods) against an environment that offers 0..5 (thorough 7) frames, each a description response, a search response or another frame, each after a delay of 0, 2 or 4 s on the virtual clock (timeout 5 s), every interleaving of offer and timeout; 40 unrelated frames before the description response; one request written, carrying the host info of the socket's local address; socket closed exactly once",
 		Outside:  "real sockets (Dial/Listen are redirected to environment functions), scheduling slack (virtual time advances only when no goroutine can move)",
 	})
 
